@@ -61,18 +61,24 @@ SCHED_DURS = [[7, 13, 4], [22, 9, 4], [5, 28, 26, 1], [7, 13, 21, 4], [22, 3, 20
 
 
 def _schedule_rows(repo):
-    """the K-slot schedule, observed: requests that all arrive together on sessions with
-    `slots` = 1..3 and a throttle sleep of 0 / 9 s; for each request the instant at which its
-    handler reached its outcome, or the processing deadline if it was answered 'server busy'
-    instead (one of the requests never ends by itself)"""
+    """the K-slot schedule, observed: requests that arrive together (even rows) or one after the
+    other (odd rows) on sessions with `slots` = 1..3 and a throttle sleep of 0 / 9 s; for each
+    request the instant at which its handler reached its outcome, or the instant of its
+    processing deadline if it was answered 'server busy' instead (on every other row one of the
+    requests never ends by itself)"""
     from harness import c03 as H
     rows = []
+    n = 0
     for slots in (1, 2, 3):
         for throttle in (0, 9):
             for vi, durs in enumerate(SCHED_DURS):
+                n += 1
                 never = (slots + vi) % len(durs) if vi % 2 else None
+                arr = [0] * len(durs)
+                if n % 2 and not throttle:
+                    arr = [3 * i + (i * i) % 4 for i in range(len(durs))]
                 items = [('R', ('t',) if i == never else ('v', i), d) for i, d in enumerate(durs)]
-                case = H.mk(items, conc=slots, throttle=throttle)
+                case = H.mk(items, arr=arr, conc=slots, throttle=throttle)
                 if not H.no_ties(case):
                     continue
                 obs = H.run_case(repo, case)
@@ -83,11 +89,11 @@ def _schedule_rows(repo):
                     if rec and rec[1] is not None and abs(rec[1] - round(rec[1])) < 1e-6:
                         times.append((int(round(rec[1])), i))
                     elif rep is not None and H.canon_reply(rep).startswith(f'E{H_busy(repo)}:'):
-                        times.append((H.P, i))
+                        times.append((arr[i] + H.P, i))
                     else:
                         times.append((999999, i))
                 rows.append({'slots': slots, 'throttle': throttle,
-                             'items': [[d, i == never] for i, d in enumerate(durs)],
+                             'items': [[d, i == never, arr[i]] for i, d in enumerate(durs)],
                              'completions': [[i, t] for t, i in sorted(times)]})
     return rows
 
@@ -190,12 +196,12 @@ def render(f):
         'def table : List (Bool × Outcome × Obs) := [\n' + '\n'.join(rows) + '\n]\n'
         '/-- processing timeout of the probe sessions -/\n'
         f'def probeDeadline : Nat := {_P()}\n'
-        '/-- the observed schedule: (slots, throttle sleep, [(handler duration, never ends)],\n'
-        '    [(request, instant of completion)] in order of completion) -/\n'
-        'def scheduleTable : List (Nat × Nat × List (Nat × Bool) × List (Nat × Nat)) := [\n'
+        '/-- the observed schedule: (slots, throttle sleep, [(handler duration, never ends,\n'
+        '    instant of arrival)], [(request, instant of completion)] in order of completion) -/\n'
+        'def scheduleTable : List (Nat × Nat × List (Nat × Bool × Nat) × List (Nat × Nat)) := [\n'
         + ',\n'.join(
             f'  ({r["slots"]}, {r["throttle"]}, '
-            f'[{", ".join(f"({d}, {b(t)})" for d, t in r["items"])}], '
+            f'[{", ".join(f"({d}, {b(t)}, {a})" for d, t, a in r["items"])}], '
             f'[{", ".join(f"({i}, {t})" for i, t in r["completions"])}])' for r in f['schedule'])
         + '\n]\n'
         'end Aiorpcx.Facts.C03\n')
